@@ -118,7 +118,7 @@ def specials():
 def params(ctx):
     if ctx.quick:
         return dict(items_large=False, nv=3, nodecap=8, seeds_k=3, seed_nodes=8, rnd=10, items_sample=4000, pairk=1,
-                    big_sizes=[65536, 262148], seqdepth=3, enc_k=1)
+                    big_sizes=[65536, 262148], seqdepth=3, enc_k=2)
     return dict(items_large=True, nv=7, nodecap=1000, seeds_k=10, seed_nodes=30, rnd=40, items_sample=150000, pairk=4,
                 big_sizes=[65536, 262148, 1048576], seqdepth=4, enc_k=3)
 
